@@ -404,9 +404,39 @@ def run(ctx):
             if d > 1:
                 far += 1
         ctx.notes.append("second opinion (strtod, never a verdict): %d of %d accepted reals differ from strtod by more than one ulp" % (far, len(so)))
+    # long-text probe (C++ only: a 10^8-unit list cannot be fed to the model): mantissas of >= 10^8 units whose
+    # ignored digits / leading fraction zeros would cancel a saturated nine-digit exponent. The value is far outside
+    # the double range, so the result must be NotANumber or an infinity, never a finite Real.
+    if exe:
+        Z = 100000000
+        probes = [
+            ("0.<%d zeros>1e+1000000000 (value 10^(9*10^8): overflow)" % (Z - 1), "s2nlong 48,46 48 %d 49,101,43,49,48,48,48,48,48,48,48,48,48" % (Z - 1), True),
+            ("1<%d zeros>e-1000000000 (value 10^(-9*10^8): underflow)" % (Z - 18), "s2nlong 49 48 %d 101,45,49,48,48,48,48,48,48,48,48,48" % (Z - 18), False),
+            ("1<%d zeros>e-999999999" % (Z - 18), "s2nlong 49 48 %d 101,45,57,57,57,57,57,57,57,57,57" % (Z - 18), False),
+            ("0.<%d zeros>0e+1000000000 (zero mantissa: still 0)" % 1000, "s2nlong 48,46 48 1000 48,101,43,49,48,48,48,48,48,48,48,48,48", None),
+        ]
+        pl = [p[1] for p in probes]
+        pout, pfaults = core.run_lines_parallel(exe, pl, jobs=2)
+        for i, kind, err in pfaults:
+            ctx.fail("fault:" + kind, "sanitizer fault in Digit::StringToNumber on the long text " + probes[i][0], {"line": pl[i], "stderr": err})
+        judged_long = 0
+        for (desc, line, over), out in zip(probes, pout):
+            if out.startswith("FAULT") or out == "bad-op":
+                continue
+            k, h, o = out.split(" ")
+            mag = int(h, 16) & (2 ** 63 - 1)
+            judged_long += 1
+            if over is None:
+                if not (k == "1" and mag == 0):
+                    ctx.fail("long-zero-mantissa", "a zero mantissa with a long exponent is not read as zero: %s -> %s" % (desc, out), {"line": line, "impl_output": out})
+            elif k == "1" and (0 < mag < 0x7FF0000000000000 if over else mag != 0):
+                ctx.fail("exponent-saturation-long-mantissa",
+                         "a numeral far outside the double range is returned as the finite Real %s: %s -> %s (saturated nine-digit exponent cancelled by >= 10^8 ignored digits / leading zeros)" % (h, desc, out),
+                         {"line": line, "impl_output": out})
+        ctx.count("long-text probes (>= 10^8 units, C++ only)", len(probes), judged_long)
     ctx.assumptions += [
         "code units are Nat; the routine only compares units with ASCII constants, so one model serves char/char16_t/char32_t/wchar_t (all four run in the harness, including units that are digits only after truncation)",
-        "SizeT is 32 bits; inputs shorter than 2^32 units",
+        "SizeT is 32 bits; inputs shorter than 2^32 units (the 32-bit exponent arithmetic of the real tail cannot wrap below 2^32 - 10^8 units once nine-digit exponents are rejected)",
         "BigInt<uint64,256> is modelled as naturals truncated to 256 bits with Index()/FindLastBit() = position of the top set bit (word-level exactness is C19's theorem; the pipeline stays below 2^255)",
         "underflow: numerals below the smallest subnormal may be rejected (NotANumber) or returned as 0 / the smallest subnormal; overflow: NotANumber, infinity or a NaN pattern",
     ]
